@@ -3,9 +3,14 @@ import numpy as np
 from vmon import gen
 
 
-def draw(rng, maxsites=6, sigmas=(0.3, 1., 3.), maxjumps=300, hostile=False, need_sites=1):
+def draw(rng, maxsites=6, sigmas=(0.3, 1., 3.), maxjumps=300, hostile=False, need_sites=1, noncentro=0.):
     """Returns dict or None (when the draw gives an empty / huge network)."""
-    crys, spec = gen.rand_crystal(rng, nchem=int(rng.integers(1, 3)), maxatoms=7)
+    if noncentro > 0 and rng.uniform() < noncentro:
+        # crystal without inversion (P1, Pm, Pmm2, P4, P3): pseudo-inverse branch of the interstitial bias solver, axial point groups
+        spec = gen.rand_noncentro_spec(rng)
+        crys = gen.make_crystal(spec)
+    else:
+        crys, spec = gen.rand_crystal(rng, nchem=int(rng.integers(1, 3)), maxatoms=7)
     chem = int(rng.integers(crys.Nchem))
     N = len(crys.basis[chem])
     if N > maxsites or N < need_sites: return None
